@@ -114,6 +114,17 @@ def main(rep):
                 args += ["-e", sp]
             mcases.append(("m%d" % m, mc.main_case(args=args, real=real, mounted=mounted, slots=[]), (list(combo), eroots, mounted)))
             m += 1
+    # a root that is NOT a mount point while the mount table lists another directory of the same length and the same
+    # 64-bit hash (the table is looked up through a hash set): it is mounted like any other
+    CA, CB = "/sqpqjslgoipqkm", "/gjkjqgoskrkion"
+    for wr, mnt in (([CB], ["/", CA]), ([CA], ["/", CB]), ([CA, CB], ["/", CA]), (["/x" + CB], ["/", "/x" + CA])):
+        real = {r: r for r in roots + wr}
+        real["."] = "/cwd"
+        args = []
+        for r in wr:
+            args += ["-w", r]
+        mcases.append(("m%d" % m, mc.main_case(args=args, real=real, mounted=mnt, slots=[]), (list(wr), [], mnt)))
+        m += 1
     # malformed command lines: nothing may be mounted or watched
     for bad in (["-w"], ["-x", "/a"], ["-c", "a", "-c", "b"], ["-w", "/a", "w"], ["-d", "x", "-d", "y", "-w", "/a"]):
         mcases.append(("m%d" % m, mc.main_case(args=bad, real={r: r for r in roots}, mounted=[], slots=[]), ("malformed", bad)))
